@@ -1,12 +1,1055 @@
-//! Extension module (Tier A): owner fills in. Output: coq/gen/ContFacts.v
-//! Contract: return (text of the .v file, report lines). Each report line is one JSON object
-//! {"item":"ContFacts.<name>","file":"<rust file>","ok":true|false[,"error":"..."]}.
-//! Fail closed: when a site is not recognised, OMIT the Gallina definition (so dependent proofs stop
-//! compiling) and push an ok:false report line.
+//! Extension module (Tier A) for C14. Output: coq/gen/ContFacts.v
+//!
+//! Regenerates the DECISION LOGIC of the container environment from
+//!   core-relations/src/containers/mod.rs   (ContainerEnv / ContainerValues)
+//!   egglog-bridge/src/lib.rs               (register_container_ty merge closure, rebuild loop)
+//!   core-relations/src/table/rebuild.rs    (refresh_rows_for_values)
+//! as Gallina definitions which coq/Cont/Gen.v assembles into functions that are PROVED EQUAL to the
+//! hand model (coq/Cont/Env.v) and pinned in coq/Props/C14.v.
+//!
+//! Items (each independently fail-closed: an unrecognised site omits the definitions):
+//!   ContFacts.merge        cont_merge / cont_merge_staged            (bridge closure: which id survives, which union is staged)
+//!   ContFacts.strategy     cont_strategy_incremental                 (apply_rebuild: threshold call)
+//!   ContFacts.insert_owned io_*                                      (collision / vacant arms as effect lists)
+//!   ContFacts.reinsert_inc rinc_*                                    (reinsert_incremental conditions)
+//!   ContFacts.inc_scan     inc_to_rebuild_*                          (apply_rebuild_incremental: ids to rebuild, call wiring)
+//!   ContFacts.nonincr      nonincr_*                                 (apply_rebuild_nonincremental: first loop arms, reinsertion loop)
+//!   ContFacts.nonincr_par  par_*                                     (the parallel variant's arms)
+//!   ContFacts.closure      closure_*                                 (rebuild_all + expand_dirty_id_closure loop structure)
+//!   ContFacts.bridge_loop  bridge_*                                  (egglog-bridge rebuild loop: step order, break condition)
+//!   ContFacts.refresh      refresh_*                                 (refresh_rows_for_values: what a refreshed row is)
+use quote::ToTokens;
+use std::path::Path;
+use syn::visit::Visit;
 
-pub fn generate(_repo: &std::path::Path) -> (String, Vec<String>) {
-    (
-        "(* GENERATED by /verif/translator (x_cont.rs): nothing extracted yet *)\n".to_string(),
-        Vec::new(),
-    )
+type R<T> = Result<T, String>;
+
+fn tok<T: ToTokens>(e: &T) -> String {
+    e.to_token_stream().to_string().replace(' ', "")
+}
+
+fn parse(repo: &Path, rel: &str) -> R<syn::File> {
+    let src = std::fs::read_to_string(repo.join(rel)).map_err(|e| format!("{rel}: {e}"))?;
+    syn::parse_file(&src).map_err(|e| format!("{rel}: {e}"))
+}
+
+fn find_fn(file: &syn::File, name: &str) -> R<syn::Block> {
+    struct F<'n> {
+        name: &'n str,
+        found: Vec<syn::Block>,
+    }
+    impl<'ast, 'n> Visit<'ast> for F<'n> {
+        fn visit_impl_item_fn(&mut self, f: &'ast syn::ImplItemFn) {
+            if f.sig.ident == self.name {
+                self.found.push(f.block.clone());
+            }
+            syn::visit::visit_impl_item_fn(self, f);
+        }
+        fn visit_item_fn(&mut self, f: &'ast syn::ItemFn) {
+            if f.sig.ident == self.name {
+                self.found.push((*f.block).clone());
+            }
+            syn::visit::visit_item_fn(self, f);
+        }
+    }
+    let mut v = F { name, found: vec![] };
+    v.visit_file(file);
+    if v.found.len() != 1 {
+        return Err(format!("expected exactly one fn {name} with a body, found {}", v.found.len()));
+    }
+    Ok(v.found.pop().unwrap())
+}
+
+fn strip_parens(e: &syn::Expr) -> &syn::Expr {
+    match e {
+        syn::Expr::Paren(p) => strip_parens(&p.expr),
+        syn::Expr::Group(g) => strip_parens(&g.expr),
+        _ => e,
+    }
+}
+
+/// value expressions: an identifier (possibly dereferenced / borrowed) out of `vars`
+fn val_expr(e: &syn::Expr, vars: &[(&str, &str)]) -> R<String> {
+    let mut t = tok(strip_parens(e));
+    loop {
+        if let Some(r) = t.strip_prefix('*') {
+            t = r.to_string();
+        } else if let Some(r) = t.strip_prefix('&') {
+            t = r.to_string();
+        } else {
+            break;
+        }
+    }
+    for (rust, coq) in vars {
+        if t == *rust {
+            return Ok(coq.to_string());
+        }
+    }
+    Err(format!("value expression `{t}` is not one of the known variables {:?}", vars.iter().map(|x| x.0).collect::<Vec<_>>()))
+}
+
+/// boolean expressions over `bvars` (bool identifiers) and `vars` (nat identifiers):
+/// `!`, `&&`, `||`, `==`, `!=`, parentheses
+fn bool_expr(e: &syn::Expr, bvars: &[(&str, &str)], vars: &[(&str, &str)]) -> R<String> {
+    let e = strip_parens(e);
+    match e {
+        syn::Expr::Unary(u) if matches!(u.op, syn::UnOp::Not(_)) => Ok(format!("negb {}", bool_atom(&u.expr, bvars, vars)?)),
+        syn::Expr::Binary(b) => match b.op {
+            syn::BinOp::And(_) => Ok(format!("{} && {}", bool_atom(&b.left, bvars, vars)?, bool_atom(&b.right, bvars, vars)?)),
+            syn::BinOp::Or(_) => Ok(format!("{} || {}", bool_atom(&b.left, bvars, vars)?, bool_atom(&b.right, bvars, vars)?)),
+            syn::BinOp::Eq(_) => Ok(format!("({} =? {})", val_expr(&b.left, vars)?, val_expr(&b.right, vars)?)),
+            syn::BinOp::Ne(_) => Ok(format!("negb ({} =? {})", val_expr(&b.left, vars)?, val_expr(&b.right, vars)?)),
+            _ => Err(format!("unsupported boolean operator in `{}`", tok(e))),
+        },
+        syn::Expr::Path(_) => {
+            let t = tok(e);
+            for (rust, coq) in bvars {
+                if t == *rust {
+                    return Ok(coq.to_string());
+                }
+            }
+            Err(format!("boolean identifier `{t}` unknown"))
+        }
+        _ => Err(format!("unsupported boolean expression `{}`", tok(e))),
+    }
+}
+
+fn bool_atom(e: &syn::Expr, bvars: &[(&str, &str)], vars: &[(&str, &str)]) -> R<String> {
+    let s = bool_expr(e, bvars, vars)?;
+    let simple = !s.contains(' ') || (s.starts_with('(') && s.ends_with(')') && !s[1..].contains('('));
+    Ok(if simple { s } else { format!("({s})") })
+}
+
+fn stmt_expr(s: &syn::Stmt) -> Option<&syn::Expr> {
+    match s {
+        syn::Stmt::Expr(e, _) => Some(e),
+        _ => None,
+    }
+}
+
+fn as_if(s: &syn::Stmt) -> Option<&syn::ExprIf> {
+    match stmt_expr(s)? {
+        syn::Expr::If(i) => Some(i),
+        _ => None,
+    }
+}
+
+fn tail_expr(b: &syn::Block) -> R<&syn::Expr> {
+    match b.stmts.last() {
+        Some(syn::Stmt::Expr(e, None)) => Ok(e),
+        _ => Err("block has no tail expression".into()),
+    }
+}
+
+// ---------------------------------------------------------------------------------------------
+// effect lists
+
+const CVARS_IO: &[(&str, &str)] = &[("old_val", "VOld"), ("result", "VResult"), ("value", "VValue")];
+const CVARS_PAR: &[(&str, &str)] = &[("old_val", "VOld"), ("result", "VResult"), ("val", "VValue")];
+
+/// `for <x> in <e>.iter() { .. val_index ops .. }` -> IdxForIter [..]
+fn idx_loop(f: &syn::ExprForLoop, vars: &[(&str, &str)]) -> R<String> {
+    let it = tok(&*f.expr);
+    if !(it.ends_with(".key().iter()") || it == "container.iter()") {
+        return Err(format!("for-loop over `{it}`: expected the container's iter()"));
+    }
+    let lv = tok(&*f.pat);
+    // inside the loop the loop variable shadows any outer variable of that name
+    let vars: Vec<(&str, &str)> = vars.iter().copied().filter(|(r, _)| *r != lv).collect();
+    let mut ops: Vec<String> = vec![];
+    let mut index_alias: Option<String> = None;
+    let entry = format!("self.val_index.entry({lv}).or_default()");
+    for s in &f.body.stmts {
+        match s {
+            syn::Stmt::Local(l) => {
+                let init = l.init.as_ref().ok_or("let without init in val_index loop")?;
+                if tok(&*init.expr) != entry {
+                    return Err(format!("unexpected let in val_index loop: `{}`", tok(s)));
+                }
+                let mut p = tok(&l.pat);
+                if let Some(r) = p.strip_prefix("mut") {
+                    p = r.to_string();
+                }
+                index_alias = Some(p);
+            }
+            syn::Stmt::Expr(syn::Expr::MethodCall(m), _) => {
+                let recv = tok(&*m.receiver);
+                let on_index = recv == entry || Some(&recv) == index_alias.as_ref();
+                if !on_index || m.args.len() != 1 {
+                    return Err(format!("unexpected statement in val_index loop: `{}`", tok(s)));
+                }
+                let a = val_expr(&m.args[0], &vars)?;
+                match m.method.to_string().as_str() {
+                    "insert" => ops.push(format!("IxInsert {a}")),
+                    "swap_remove" | "shift_remove" | "remove" => ops.push(format!("IxRemove {a}")),
+                    o => return Err(format!("unexpected val_index method `{o}`")),
+                }
+            }
+            _ => return Err(format!("unexpected statement in val_index loop: `{}`", tok(s))),
+        }
+    }
+    Ok(format!("IdxForIter [{}]", ops.join("; ")))
+}
+
+/// statements of a collision / vacant arm -> list of `cop`
+fn cop_list(stmts: &[syn::Stmt], vars: &[(&str, &str)]) -> R<Vec<String>> {
+    let mut ops = vec![];
+    for s in stmts {
+        // unsafe { shard.insert_in_slot(hc, slot, (container, SharedValue::new(val))); }
+        if let Some(syn::Expr::Unsafe(u)) = stmt_expr(s) {
+            if u.block.stmts.len() == 1 {
+                let t = tok(&u.block.stmts[0]);
+                if let Some(r) = t.strip_prefix("shard.insert_in_slot(hc,slot,(container,SharedValue::new(") {
+                    let v = r.trim_end_matches(';').trim_end_matches(')');
+                    let fake: syn::Expr = syn::parse_str(v).map_err(|e| e.to_string())?;
+                    ops.push(format!("IdInsert {}", val_expr(&fake, vars)?));
+                    continue;
+                }
+            }
+            return Err(format!("unexpected unsafe statement `{}`", tok(s)));
+        }
+        match stmt_expr(s) {
+            Some(syn::Expr::ForLoop(f)) => ops.push(idx_loop(f, vars)?),
+            Some(syn::Expr::MethodCall(m)) => {
+                let recv = tok(&*m.receiver);
+                let meth = m.method.to_string();
+                match (recv.as_str(), meth.as_str()) {
+                    ("self.to_container", "remove") if m.args.len() == 1 => ops.push(format!("TcRemove {}", val_expr(&m.args[0], vars)?)),
+                    ("self.to_container", "insert") if m.args.len() == 2 => ops.push(format!("TcInsert {}", val_expr(&m.args[0], vars)?)),
+                    ("vacant_entry", "insert") | ("vac", "insert") if m.args.len() == 1 => ops.push(format!("IdInsert {}", val_expr(&m.args[0], vars)?)),
+                    _ => return Err(format!("unexpected call `{}`", tok(s))),
+                }
+            }
+            Some(syn::Expr::Assign(a)) => {
+                let l = tok(&*a.left);
+                if l == "*occ.get_mut()" || l == "*val_slot.get_mut()" {
+                    ops.push(format!("IdSet {}", val_expr(&a.right, vars)?));
+                } else {
+                    return Err(format!("unexpected assignment `{}`", tok(s)));
+                }
+            }
+            _ => return Err(format!("unexpected statement `{}`", tok(s))),
+        }
+    }
+    Ok(ops)
+}
+
+fn coq_list(v: &[String]) -> String {
+    format!("[{}]", v.join("; "))
+}
+
+// ---------------------------------------------------------------------------------------------
+// items
+
+/// register_container_ty: `move |state, old, new| { if old != new { ..stage_insert(uf_table, &[old, new, ts]); min(old, new) } else { old } }`
+fn item_merge(repo: &Path) -> R<String> {
+    let file = parse(repo, "egglog-bridge/src/lib.rs")?;
+    let body = find_fn(&file, "register_container_ty")?;
+    struct C {
+        cl: Vec<syn::ExprClosure>,
+    }
+    impl<'ast> Visit<'ast> for C {
+        fn visit_expr_closure(&mut self, c: &'ast syn::ExprClosure) {
+            self.cl.push(c.clone());
+        }
+    }
+    let mut c = C { cl: vec![] };
+    c.visit_block(&body);
+    if c.cl.len() != 1 || c.cl[0].inputs.len() != 3 {
+        return Err("register_container_ty: expected one closure |state, old, new|".into());
+    }
+    let cl = &c.cl[0];
+    let a = tok(&cl.inputs[1]);
+    let b = tok(&cl.inputs[2]);
+    let vars: Vec<(&str, &str)> = vec![(a.as_str(), "old"), (b.as_str(), "new")];
+    let blk = match &*cl.body {
+        syn::Expr::Block(b) => &b.block,
+        _ => return Err("merge closure body is not a block".into()),
+    };
+    if blk.stmts.len() != 1 {
+        return Err("merge closure: expected a single if-else".into());
+    }
+    let i = as_if(&blk.stmts[0]).ok_or("merge closure: expected if-else")?;
+    let cond = bool_expr(&i.cond, &[], &vars)?;
+    let nat_tail = |b: &syn::Block| -> R<String> {
+        let t = tail_expr(b)?;
+        if let syn::Expr::Call(c) = t {
+            let f = tok(&*c.func);
+            let op = match f.as_str() {
+                "std::cmp::min" | "cmp::min" | "min" => "Nat.min",
+                "std::cmp::max" | "cmp::max" | "max" => "Nat.max",
+                _ => return Err(format!("merge closure: unknown call `{f}`")),
+            };
+            if c.args.len() != 2 {
+                return Err("min/max arity".into());
+            }
+            return Ok(format!("{op} {} {}", val_expr(&c.args[0], &vars)?, val_expr(&c.args[1], &vars)?));
+        }
+        val_expr(t, &vars)
+    };
+    let staged = |b: &syn::Block| -> R<Vec<String>> {
+        let mut out = vec![];
+        let n = b.stmts.len();
+        for s in &b.stmts[..n.saturating_sub(1)] {
+            match s {
+                syn::Stmt::Local(l) => {
+                    let t = tok(&l.pat);
+                    if t != "next_ts" {
+                        return Err(format!("merge closure: unexpected let `{t}`"));
+                    }
+                }
+                syn::Stmt::Expr(syn::Expr::MethodCall(m), Some(_)) if m.method == "stage_insert" && m.args.len() == 2 => {
+                    if tok(&m.args[0]) != "uf_table" {
+                        return Err("stage_insert not into uf_table".into());
+                    }
+                    let arr = match &m.args[1] {
+                        syn::Expr::Reference(r) => match &*r.expr {
+                            syn::Expr::Array(a) => a.clone(),
+                            _ => return Err("stage_insert row is not an array".into()),
+                        },
+                        _ => return Err("stage_insert row is not &[..]".into()),
+                    };
+                    if arr.elems.len() != 3 {
+                        return Err("stage_insert row: expected [a, b, ts]".into());
+                    }
+                    out.push(format!("({}, {})", val_expr(&arr.elems[0], &vars)?, val_expr(&arr.elems[1], &vars)?));
+                }
+                _ => return Err(format!("merge closure: unexpected statement `{}`", tok(s))),
+            }
+        }
+        Ok(out)
+    };
+    let then_v = nat_tail(&i.then_branch)?;
+    let then_s = staged(&i.then_branch)?;
+    let else_blk = match i.else_branch.as_ref().map(|x| &*x.1) {
+        Some(syn::Expr::Block(b)) => &b.block,
+        _ => return Err("merge closure: else branch missing".into()),
+    };
+    let else_v = nat_tail(else_blk)?;
+    let else_s = staged(else_blk)?;
+    Ok(format!(
+        "(* egglog-bridge/src/lib.rs register_container_ty: the merge closure handed to every ContainerEnv *)\n\
+         Definition cont_merge (old new : nat) : nat :=\n  if {cond} then {then_v} else {else_v}.\n\
+         Definition cont_merge_staged (old new : nat) : list (nat * nat) :=\n  if {cond} then {} else {}.\n",
+        coq_list(&then_s),
+        coq_list(&else_s)
+    ))
+}
+
+/// ContainerEnv::apply_rebuild: `if let Some(subset) = subset && incremental_rebuild(a, b, c) { return incremental } nonincremental`
+fn item_strategy(file: &syn::File) -> R<String> {
+    let body = find_fn(file, "apply_rebuild")?;
+    if body.stmts.len() != 2 {
+        return Err(format!("apply_rebuild: expected `if .. {{ return .. }}` + tail, found {} statements", body.stmts.len()));
+    }
+    let i = as_if(&body.stmts[0]).ok_or("apply_rebuild: first statement is not an if")?;
+    if i.else_branch.is_some() {
+        return Err("apply_rebuild: unexpected else".into());
+    }
+    let (l, r) = match strip_parens(&i.cond) {
+        syn::Expr::Binary(b) if matches!(b.op, syn::BinOp::And(_)) => (&*b.left, &*b.right),
+        _ => return Err("apply_rebuild: condition is not `let .. && ..`".into()),
+    };
+    if tok(l) != "letSome(subset)=subset" {
+        return Err(format!("apply_rebuild: unexpected binding `{}`", tok(l)));
+    }
+    let call = match strip_parens(r) {
+        syn::Expr::Call(c) if tok(&*c.func) == "incremental_rebuild" && c.args.len() == 3 => c,
+        _ => return Err("apply_rebuild: expected incremental_rebuild(_, _, _)".into()),
+    };
+    let arg = |e: &syn::Expr| -> R<String> {
+        match tok(e).as_str() {
+            "subset.size()" => Ok("subset_size".into()),
+            "self.to_id.len()" => Ok("to_id_len".into()),
+            "parallelize_intra_container_op(self.to_id.len())" => Ok("(par_intra to_id_len)".into()),
+            "parallelize_intra_container_op(subset.size())" => Ok("(par_intra subset_size)".into()),
+            t => Err(format!("apply_rebuild: unknown argument `{t}`")),
+        }
+    };
+    let (a, b, c) = (arg(&call.args[0])?, arg(&call.args[1])?, arg(&call.args[2])?);
+    let then_t = tok(&i.then_branch);
+    if !then_t.starts_with("{returnself.apply_rebuild_incremental(") {
+        return Err("apply_rebuild: then-branch does not return apply_rebuild_incremental".into());
+    }
+    if !tok(&body.stmts[1]).starts_with("self.apply_rebuild_nonincremental(") {
+        return Err("apply_rebuild: tail is not apply_rebuild_nonincremental".into());
+    }
+    Ok(format!(
+        "(* containers/mod.rs ContainerEnv::apply_rebuild: true = apply_rebuild_incremental, false = apply_rebuild_nonincremental *)\n\
+         Definition cont_strategy_incremental (par_intra : nat -> bool) (subset : option nat) (to_id_len : nat) : bool :=\n  \
+         match subset with\n  | Some subset_size => incremental_rebuild {a} {b} {c}\n  | None => false\n  end.\n"
+    ))
+}
+
+fn match_arms<'a>(e: &'a syn::Expr, what: &str) -> R<(&'a syn::Arm, &'a syn::Arm)> {
+    let m = match e {
+        syn::Expr::Match(m) => m,
+        _ => return Err(format!("{what}: expected a match")),
+    };
+    let mut occ = None;
+    let mut vac = None;
+    for a in &m.arms {
+        let p = tok(&a.pat);
+        if p.contains("Occupied(") || p.starts_with("Ok(") {
+            occ = Some(a);
+        } else if p.contains("Vacant(") || p.starts_with("Err(") {
+            vac = Some(a);
+        } else {
+            return Err(format!("{what}: unexpected arm `{p}`"));
+        }
+    }
+    match (occ, vac) {
+        (Some(o), Some(v)) if m.arms.len() == 2 => Ok((o, v)),
+        _ => Err(format!("{what}: expected exactly an occupied and a vacant arm")),
+    }
+}
+
+fn arm_block<'a>(a: &'a syn::Arm) -> R<&'a syn::Block> {
+    match &*a.body {
+        syn::Expr::Block(b) => Ok(&b.block),
+        _ => Err("match arm body is not a block".into()),
+    }
+}
+
+/// the occupied arm: `let result = (self.merge_fn)(st, <cur>, <incoming>); let old_val = <cur>; if result != old_val { ops }` [+ rest]
+/// returns (merge args, guard, ops, remaining statements)
+fn occupied_arm<'a>(blk: &'a syn::Block, cur: &str, vars: &[(&str, &str)]) -> R<(String, String, Vec<String>, &'a [syn::Stmt])> {
+    let mut merge_args = None;
+    let mut seen_old = false;
+    let mut idx = 0;
+    for (k, s) in blk.stmts.iter().enumerate() {
+        match s {
+            syn::Stmt::Local(l) => {
+                let p = tok(&l.pat);
+                let init = tok(&*l.init.as_ref().ok_or("let without init")?.expr);
+                if p == "result" {
+                    let pre = "(self.merge_fn)(";
+                    let inner = init.strip_prefix(pre).and_then(|x| x.strip_suffix(')')).ok_or_else(|| format!("result is not a merge_fn call: `{init}`"))?;
+                    let parts: Vec<&str> = inner.split(',').collect();
+                    if parts.len() != 3 {
+                        return Err("merge_fn arity".into());
+                    }
+                    let tr = |x: &str| -> R<&str> {
+                        if x == cur || x == "old_val" {
+                            Ok("VOld")
+                        } else if x == "value" || x == "val" {
+                            Ok("VValue")
+                        } else {
+                            Err(format!("merge_fn argument `{x}`"))
+                        }
+                    };
+                    merge_args = Some(format!("({}, {})", tr(parts[1])?, tr(parts[2])?));
+                } else if p == "old_val" {
+                    if init != cur {
+                        return Err(format!("old_val bound to `{init}`"));
+                    }
+                    seen_old = true;
+                } else if p == "(container,val_slot)" {
+                    // parallel variant: `let (container, val_slot) = unsafe { bucket.as_mut() };`
+                } else {
+                    return Err(format!("occupied arm: unexpected let `{p}`"));
+                }
+            }
+            _ => {
+                idx = k;
+                break;
+            }
+        }
+    }
+    let merge_args = merge_args.ok_or("occupied arm: merge_fn call not found")?;
+    if !seen_old {
+        return Err("occupied arm: old_val binding not found".into());
+    }
+    let i = as_if(&blk.stmts[idx]).ok_or("occupied arm: expected `if result != old_val`")?;
+    if i.else_branch.is_some() {
+        return Err("occupied arm: unexpected else".into());
+    }
+    let guard = match strip_parens(&i.cond) {
+        syn::Expr::Binary(b) if matches!(b.op, syn::BinOp::Ne(_)) => format!("({}, {})", val_expr(&b.left, vars)?, val_expr(&b.right, vars)?),
+        _ => return Err("occupied arm: guard is not `a != b`".into()),
+    };
+    let ops = cop_list(&i.then_branch.stmts, vars)?;
+    Ok((merge_args, guard, ops, &blk.stmts[idx + 1..]))
+}
+
+const COP_DECL: &str = "Inductive cvar := VOld | VResult | VValue.\n\
+Inductive ixop := IxRemove (v : cvar) | IxInsert (v : cvar).\n\
+Inductive cop := TcRemove (v : cvar) | TcInsert (v : cvar) | IdSet (v : cvar) | IdInsert (v : cvar) | IdxForIter (ops : list ixop).\n";
+
+fn item_insert_owned(file: &syn::File) -> R<String> {
+    let body = find_fn(file, "insert_owned")?;
+    let t = tail_expr(&body)?;
+    let (occ, vac) = match_arms(t, "insert_owned")?;
+    if let syn::Expr::Match(m) = t {
+        if tok(&*m.expr) != "self.to_id.entry(container)" {
+            return Err("insert_owned: scrutinee is not self.to_id.entry(container)".into());
+        }
+    }
+    let ob = arm_block(occ)?;
+    let (margs, guard, ops, rest) = occupied_arm(ob, "*occ.get()", CVARS_IO)?;
+    if rest.len() != 1 {
+        return Err("insert_owned occupied arm: expected a tail after the if".into());
+    }
+    let oret = val_expr(stmt_expr(&rest[0]).ok_or("tail")?, CVARS_IO)?;
+    let vb = arm_block(vac)?;
+    let n = vb.stmts.len();
+    if n == 0 {
+        return Err("insert_owned vacant arm empty".into());
+    }
+    let vops = cop_list(&vb.stmts[..n - 1], CVARS_IO)?;
+    let vret = val_expr(tail_expr(vb)?, CVARS_IO)?;
+    Ok(format!(
+        "(* containers/mod.rs ContainerEnv::insert_owned *)\n\
+         Definition io_merge_args : cvar * cvar := {margs}.   (* (self.merge_fn)(_, a, b) *)\n\
+         Definition io_occ_guard_ne : cvar * cvar := {guard}. (* if a != b *)\n\
+         Definition io_occ_changed_ops : list cop := {}.\n\
+         Definition io_occ_ret : cvar := {oret}.\n\
+         Definition io_vac_ops : list cop := {}.\n\
+         Definition io_vac_ret : cvar := {vret}.\n",
+        coq_list(&ops),
+        coq_list(&vops)
+    ))
+}
+
+const RINC_B: &[(&str, &str)] = &[("container_changed", "container_changed")];
+const RINC_V: &[(&str, &str)] = &[("rebuilt_id", "rebuilt_id"), ("old_id", "old_id"), ("actual", "actual")];
+const RINC_SIG: &str = "(container_changed : bool) (rebuilt_id old_id actual : nat)";
+
+fn single_call_body(i: &syn::ExprIf, expect_prefix: &str) -> R<String> {
+    if i.else_branch.is_some() || i.then_branch.stmts.len() != 1 {
+        return Err(format!("expected `if .. {{ {expect_prefix}..; }}`"));
+    }
+    let t = tok(&i.then_branch.stmts[0]);
+    let r = t.strip_prefix(expect_prefix).ok_or_else(|| format!("expected `{expect_prefix}..`, found `{t}`"))?;
+    Ok(r.trim_end_matches(';').trim_end_matches(')').trim_start_matches('&').to_string())
+}
+
+fn item_reinsert_inc(file: &syn::File) -> R<String> {
+    let body = find_fn(file, "reinsert_incremental")?;
+    if body.stmts.len() != 4 {
+        return Err(format!("reinsert_incremental: expected 4 statements, found {}", body.stmts.len()));
+    }
+    let i0 = as_if(&body.stmts[0]).ok_or("stmt 0 not an if")?;
+    single_call_body(i0, "summary.note_change(")?;
+    let c0 = bool_expr(&i0.cond, RINC_B, RINC_V)?;
+    let i1 = as_if(&body.stmts[1]).ok_or("stmt 1 not an if")?;
+    let dropped = single_call_body(i1, "self.to_container.remove(")?;
+    let c1 = bool_expr(&i1.cond, RINC_B, RINC_V)?;
+    let dropped = val_expr(&syn::parse_str::<syn::Expr>(&dropped).map_err(|e| e.to_string())?, RINC_V)?;
+    let l = match &body.stmts[2] {
+        syn::Stmt::Local(l) if tok(&l.pat) == "actual" => tok(&*l.init.as_ref().ok_or("init")?.expr),
+        _ => return Err("stmt 2 is not `let actual = ..`".into()),
+    };
+    let inner = l.strip_prefix("self.insert_owned(container,").and_then(|x| x.strip_suffix(",exec_state)")).ok_or("stmt 2 is not insert_owned(container, _, exec_state)")?;
+    let ins = val_expr(&syn::parse_str::<syn::Expr>(inner).map_err(|e| e.to_string())?, RINC_V)?;
+    let i3 = as_if(&body.stmts[3]).ok_or("stmt 3 not an if")?;
+    let noted = single_call_body(i3, "summary.note_dirty_id(")?;
+    let noted = val_expr(&syn::parse_str::<syn::Expr>(&noted).map_err(|e| e.to_string())?, RINC_V)?;
+    let c3 = bool_expr(&i3.cond, RINC_B, RINC_V)?;
+    Ok(format!(
+        "(* containers/mod.rs ContainerEnv::reinsert_incremental *)\n\
+         Definition rinc_note_change {RINC_SIG} : bool := {c0}.\n\
+         Definition rinc_drop_locator {RINC_SIG} : bool := {c1}.\n\
+         Definition rinc_dropped_locator {RINC_SIG} : nat := {dropped}.\n\
+         Definition rinc_insert_id {RINC_SIG} : nat := {ins}.\n\
+         Definition rinc_dirty {RINC_SIG} : bool := {c3}.\n\
+         Definition rinc_dirty_id {RINC_SIG} : nat := {noted}.\n"
+    ))
+}
+
+fn find_for_loops(b: &syn::Block) -> Vec<syn::ExprForLoop> {
+    struct V {
+        out: Vec<syn::ExprForLoop>,
+    }
+    impl<'ast> Visit<'ast> for V {
+        fn visit_expr_for_loop(&mut self, f: &'ast syn::ExprForLoop) {
+            self.out.push(f.clone());
+            syn::visit::visit_expr_for_loop(self, f);
+        }
+    }
+    let mut v = V { out: vec![] };
+    v.visit_block(b);
+    v.out
+}
+
+fn item_inc_scan(file: &syn::File) -> R<String> {
+    let body = find_fn(file, "apply_rebuild_incremental")?;
+    let loops = find_for_loops(&body);
+    if loops.len() != 2 {
+        return Err(format!("apply_rebuild_incremental: expected 2 for-loops, found {}", loops.len()));
+    }
+    // loop 1: which ids are queued
+    let l1 = &loops[0];
+    if tok(&*l1.expr) != "buf.iter()" || tok(&*l1.pat) != "(_,row)" {
+        return Err("apply_rebuild_incremental: first loop is not over the scanned displaced ids".into());
+    }
+    let mut self_in = false;
+    let mut idx_in = false;
+    for s in &l1.body.stmts {
+        let t = tok(s);
+        if t == "to_rebuild.insert(row[0]);" {
+            self_in = true;
+        } else if t.starts_with("letSome(ids)=self.val_index.get(&row[0])else{continue") {
+        } else if t == "to_rebuild.extend(&*ids);" {
+            idx_in = true;
+        } else {
+            return Err(format!("apply_rebuild_incremental: unexpected statement in first loop `{t}`"));
+        }
+    }
+    // loop 2: the wiring
+    let l2 = &loops[1];
+    if tok(&*l2.expr) != "to_rebuild" || tok(&*l2.pat) != "id" {
+        return Err("apply_rebuild_incremental: second loop is not `for id in to_rebuild`".into());
+    }
+    let mut looked_up_by_id = false;
+    let mut rid = false;
+    let mut ch = false;
+    let mut call = false;
+    for s in &l2.body.stmts {
+        let t = tok(s);
+        if t.starts_with("letSome((hc,target_map))=self.to_container.get(&id)") {
+        } else if t.starts_with("letshard_mut=self.to_id.shards_mut()[target_map]") {
+        } else if t.starts_with("letSome((mutcontainer,_))=shard_mut.remove_entry(hcasu64,|(_,v)|*v.get()==id)else{continue") {
+            looked_up_by_id = true;
+        } else if t == "letrebuilt_id=rebuilder.rebuild_val(id);" {
+            rid = true;
+        } else if t == "letcontainer_changed=container.rebuild_contents(rebuilder);" {
+            ch = true;
+        } else if t == "self.reinsert_incremental(container,id,rebuilt_id,container_changed,exec_state,&mutsummary,);"
+            || t == "self.reinsert_incremental(container,id,rebuilt_id,container_changed,exec_state,&mutsummary);"
+        {
+            call = true;
+        } else {
+            return Err(format!("apply_rebuild_incremental: unexpected statement in second loop `{t}`"));
+        }
+    }
+    if !(looked_up_by_id && rid && ch && call) {
+        return Err("apply_rebuild_incremental: second loop wiring incomplete".into());
+    }
+    Ok(format!(
+        "(* containers/mod.rs ContainerEnv::apply_rebuild_incremental: ids queued per displaced id d; the second loop takes the entry filed under id, \
+         computes rebuilt_id := rebuild_val id, container_changed := rebuild_contents, and calls reinsert_incremental(container, id, rebuilt_id, container_changed) *)\n\
+         Definition inc_to_rebuild_self : bool := {self_in}.\n\
+         Definition inc_to_rebuild_index : bool := {idx_in}.\n"
+    ))
+}
+
+const NI_B: &[(&str, &str)] = &[("container_changed", "container_changed"), ("stable_id", "stable_id")];
+const NI_V: &[(&str, &str)] = &[("new_val", "new_val"), ("old_val", "old_val")];
+
+/// the scan loop `for bucket in unsafe { shard.iter() }` shared by the serial and parallel variants
+fn scan_loop(l: &syn::ExprForLoop, pfx: &str, push_recv: &str) -> R<String> {
+    let mut k = 0;
+    let st = &l.body.stmts;
+    let expect = |k: &mut usize, want: &str| -> R<()> {
+        let t = st.get(*k).map(tok).unwrap_or_default();
+        if t != want {
+            return Err(format!("scan loop: expected `{want}`, found `{t}`"));
+        }
+        *k += 1;
+        Ok(())
+    };
+    expect(&mut k, "let(container,val)=unsafe{bucket.as_mut()};")?;
+    expect(&mut k, "letold_val=*val.get();")?;
+    expect(&mut k, "letnew_val=rebuilder.rebuild_val(old_val);")?;
+    expect(&mut k, "letcontainer_changed=container.rebuild_contents(rebuilder);")?;
+    let i = as_if(st.get(k).ok_or("scan loop too short")?).ok_or("scan loop: expected the skip test")?;
+    if tok(&i.then_branch).replace("//", "") != "{continue;}" || i.else_branch.is_some() {
+        return Err("scan loop: skip test does not `continue`".into());
+    }
+    let skip = bool_expr(&i.cond, NI_B, NI_V)?;
+    k += 1;
+    let t = st.get(k).map(tok).unwrap_or_default();
+    if t != "summary.note_change();" && t != "changed=true;" {
+        return Err(format!("scan loop: change not noted after the skip test (`{t}`)"));
+    }
+    k += 1;
+    let i = as_if(st.get(k).ok_or("scan loop too short")?).ok_or("scan loop: expected `if container_changed`")?;
+    if k + 1 != st.len() {
+        return Err("scan loop: trailing statements".into());
+    }
+    let requeue = bool_expr(&i.cond, NI_B, NI_V)?;
+    // then: take the entry out of both maps and queue (container, val, stable)
+    let mut took_id = false;
+    let mut took_loc = None;
+    let mut push = None;
+    for s in &i.then_branch.stmts {
+        let t = tok(s);
+        if t == "let((container,_),_)=unsafe{shard.remove(bucket)};" {
+            took_id = true;
+        } else if let Some(r) = t.strip_prefix("self.to_container.remove(&") {
+            took_loc = Some(r.trim_end_matches(';').trim_end_matches(')').to_string());
+        } else if t.starts_with("letshard=self.to_container.determine_shard(hash_container(&container)asusize);") {
+        } else if let Some(r) = t.strip_prefix(&format!("{push_recv}.push((container,")) {
+            push = Some(r.trim_end_matches(';').trim_end_matches(')').to_string());
+        } else {
+            return Err(format!("scan loop, changed arm: unexpected `{t}`"));
+        }
+    }
+    if !took_id {
+        return Err("scan loop, changed arm: entry is not removed from to_id".into());
+    }
+    let took_loc = took_loc.ok_or("scan loop, changed arm: locator is not removed")?;
+    let took_loc = val_expr(&syn::parse_str::<syn::Expr>(&took_loc).map_err(|e| e.to_string())?, NI_V)?;
+    let push = push.ok_or("scan loop, changed arm: nothing queued")?;
+    let (pv, ps) = push.split_once(',').ok_or("queued tuple")?;
+    let pv = val_expr(&syn::parse_str::<syn::Expr>(pv).map_err(|e| e.to_string())?, NI_V)?;
+    let ps = bool_expr(&syn::parse_str::<syn::Expr>(ps).map_err(|e| e.to_string())?, NI_B, NI_V)?;
+    // else: re-key in place
+    let eb = match i.else_branch.as_ref().map(|x| &*x.1) {
+        Some(syn::Expr::Block(b)) => &b.block,
+        _ => return Err("scan loop: `just the value changed` arm missing".into()),
+    };
+    let et: Vec<String> = eb.stmts.iter().map(tok).collect();
+    let want = ["*val.get_mut()=new_val;", "letprev=self.to_container.remove(&old_val).unwrap().1;", "self.to_container.insert(new_val,prev);"];
+    if et != want {
+        return Err(format!("scan loop, value-only arm: unexpected statements {et:?}"));
+    }
+    let sig = "(container_changed : bool) (new_val old_val : nat)";
+    Ok(format!(
+        "Definition {pfx}_skip {sig} : bool := {skip}.\n\
+         Definition {pfx}_requeue {sig} : bool := {requeue}.\n\
+         Definition {pfx}_taken_locator {sig} : nat := {took_loc}.\n\
+         Definition {pfx}_queued_id {sig} : nat := {pv}.\n\
+         Definition {pfx}_queued_stable {sig} : bool := {ps}.\n\
+         (* value-only arm: to_id entry := new_val; locator moved old_val -> new_val; val_index untouched *)\n\
+         Definition {pfx}_rekey_touches_val_index : bool := false.\n"
+    ))
+}
+
+fn item_nonincr(file: &syn::File) -> R<String> {
+    let body = find_fn(file, "apply_rebuild_nonincremental")?;
+    let loops = find_for_loops(&body);
+    let scan = loops.iter().find(|l| tok(&*l.expr) == "unsafe{shard.iter()}").ok_or("nonincremental: scan loop not found")?;
+    let mut out = String::from("(* containers/mod.rs ContainerEnv::apply_rebuild_nonincremental (serial) *)\n");
+    out += &scan_loop(scan, "nonincr", "to_reinsert")?;
+    let re = loops.iter().find(|l| tok(&*l.expr) == "to_reinsert").ok_or("nonincremental: reinsertion loop not found")?;
+    if tok(&*re.pat) != "(container,val,stable_id)" || re.body.stmts.len() != 2 {
+        return Err("nonincremental: reinsertion loop shape".into());
+    }
+    if tok(&re.body.stmts[0]) != "letactual=self.insert_owned(container,val,exec_state);" {
+        return Err("nonincremental: reinsertion loop does not call insert_owned(container, val, _)".into());
+    }
+    let i = as_if(&re.body.stmts[1]).ok_or("nonincremental: dirty test missing")?;
+    let noted = single_call_body(i, "summary.note_dirty_id(")?;
+    let v: &[(&str, &str)] = &[("actual", "actual"), ("val", "val")];
+    let c = bool_expr(&i.cond, NI_B, v)?;
+    let noted = val_expr(&syn::parse_str::<syn::Expr>(&noted).map_err(|e| e.to_string())?, v)?;
+    out += &format!(
+        "Definition nonincr_dirty (stable_id : bool) (actual val : nat) : bool := {c}.\n\
+         Definition nonincr_dirty_id (stable_id : bool) (actual val : nat) : nat := {noted}.\n"
+    );
+    Ok(out)
+}
+
+fn item_nonincr_par(file: &syn::File) -> R<String> {
+    let body = find_fn(file, "apply_rebuild_nonincremental_parallel")?;
+    let loops = find_for_loops(&body);
+    let scan = loops.iter().find(|l| tok(&*l.expr) == "unsafe{shard.iter()}").ok_or("parallel: scan loop not found")?;
+    let mut out = String::from("(* containers/mod.rs ContainerEnv::apply_rebuild_nonincremental_parallel *)\n");
+    out += &scan_loop(scan, "par", "to_reinsert[shard]")?;
+    // the reinsertion: `match shard.find_or_find_insert_slot(..) { Ok(bucket) => {..} Err(slot) => {..} }`
+    struct M {
+        found: Vec<syn::ExprMatch>,
+    }
+    impl<'ast> Visit<'ast> for M {
+        fn visit_expr_match(&mut self, m: &'ast syn::ExprMatch) {
+            if tok(&*m.expr).starts_with("shard.find_or_find_insert_slot(") {
+                self.found.push(m.clone());
+            }
+            syn::visit::visit_expr_match(self, m);
+        }
+    }
+    let mut m = M { found: vec![] };
+    m.visit_block(&body);
+    if m.found.len() != 1 {
+        return Err("parallel: reinsertion match not found".into());
+    }
+    let me = syn::Expr::Match(m.found.pop().unwrap());
+    let (occ, vac) = match_arms(&me, "parallel reinsertion")?;
+    let (margs, guard, ops, rest) = occupied_arm(arm_block(occ)?, "*val_slot.get()", CVARS_PAR)?;
+    if rest.len() != 1 {
+        return Err("parallel occupied arm: expected the dirty test after the if".into());
+    }
+    let i = as_if(&rest[0]).ok_or("parallel occupied arm: dirty test missing")?;
+    let v: &[(&str, &str)] = &[("result", "actual"), ("val", "val")];
+    let noted = single_call_body(i, "dirty_ids.push(")?;
+    let oc = bool_expr(&i.cond, NI_B, v)?;
+    let onoted = val_expr(&syn::parse_str::<syn::Expr>(&noted).map_err(|e| e.to_string())?, v)?;
+    let vb = arm_block(vac)?;
+    let n = vb.stmts.len();
+    if n < 2 {
+        return Err("parallel vacant arm too short".into());
+    }
+    let vops = cop_list(&vb.stmts[..n - 1], CVARS_PAR)?;
+    let i = as_if(&vb.stmts[n - 1]).ok_or("parallel vacant arm: dirty test missing")?;
+    let noted = single_call_body(i, "dirty_ids.push(")?;
+    let vc = bool_expr(&i.cond, NI_B, v)?;
+    let vnoted = val_expr(&syn::parse_str::<syn::Expr>(&noted).map_err(|e| e.to_string())?, v)?;
+    out += &format!(
+        "Definition par_merge_args : cvar * cvar := {margs}.\n\
+         Definition par_occ_guard_ne : cvar * cvar := {guard}.\n\
+         Definition par_occ_changed_ops : list cop := {}.\n\
+         Definition par_vac_ops : list cop := {}.\n\
+         (* occupied arm: actual = result of the merge; vacant arm: actual = val *)\n\
+         Definition par_occ_dirty (stable_id : bool) (actual val : nat) : bool := {oc}.\n\
+         Definition par_occ_dirty_id (stable_id : bool) (actual val : nat) : nat := {onoted}.\n\
+         Definition par_vac_dirty (stable_id : bool) (actual val : nat) : bool := {vc}.\n\
+         Definition par_vac_dirty_id (stable_id : bool) (actual val : nat) : nat := {vnoted}.\n",
+        coq_list(&ops),
+        coq_list(&vops)
+    );
+    Ok(out)
+}
+
+/// rebuild_all ends with `self.expand_dirty_id_closure(&mut summary); summary`, and the closure's loop
+fn item_closure(file: &syn::File) -> R<String> {
+    let ra = find_fn(file, "rebuild_all")?;
+    let n = ra.stmts.len();
+    if n < 2 || tok(&ra.stmts[n - 1]) != "summary" {
+        return Err("rebuild_all: tail is not `summary`".into());
+    }
+    let applied = tok(&ra.stmts[n - 2]) == "self.expand_dirty_id_closure(&mutsummary);";
+    let body = find_fn(file, "expand_dirty_id_closure")?;
+    if body.stmts.len() != 3 {
+        return Err(format!("expand_dirty_id_closure: expected 3 statements, found {}", body.stmts.len()));
+    }
+    if tok(&body.stmts[0]) != "letmutfrontier=summary.dirty_ids.clone();" {
+        return Err("expand_dirty_id_closure: frontier is not initialised with the dirty ids".into());
+    }
+    if tok(&body.stmts[1]) != "letmutseen=frontier.iter().copied().collect::<IndexSet<_>>();" {
+        return Err("expand_dirty_id_closure: seen is not initialised with the frontier".into());
+    }
+    let (kind, cond, lb) = match stmt_expr(&body.stmts[2]) {
+        Some(syn::Expr::While(w)) => ("LoopWhile", tok(&*w.cond), &w.body),
+        Some(syn::Expr::If(i)) if i.else_branch.is_none() => ("LoopOnce", tok(&*i.cond), &i.then_branch),
+        _ => return Err("expand_dirty_id_closure: third statement is neither while nor if".into()),
+    };
+    if cond != "!frontier.is_empty()" {
+        return Err(format!("expand_dirty_id_closure: loop condition `{cond}`"));
+    }
+    if lb.stmts.len() != 4 {
+        return Err(format!("expand_dirty_id_closure: loop body has {} statements, expected 4", lb.stmts.len()));
+    }
+    if tok(&lb.stmts[0]) != "letmutnext=IndexSet::default();" {
+        return Err("closure loop: next not fresh".into());
+    }
+    let f1 = match stmt_expr(&lb.stmts[1]) {
+        Some(syn::Expr::ForLoop(f)) => f,
+        _ => return Err("closure loop: expected the loop over environments".into()),
+    };
+    if tok(&*f1.expr) != "self.data.iter()" || f1.body.stmts.len() != 1 {
+        return Err("closure loop: not over all container environments".into());
+    }
+    let src = match tok(&f1.body.stmts[0]).as_str() {
+        "env.extend_containers_containing(&frontier,&mutnext);" => "ParentsOfFrontier",
+        "env.extend_containers_containing(&seen,&mutnext);" => "ParentsOfSeen",
+        t => return Err(format!("closure loop: unexpected `{t}`")),
+    };
+    if tok(&lb.stmts[2]) != "frontier.clear();" {
+        return Err("closure loop: frontier not cleared".into());
+    }
+    let f2 = match stmt_expr(&lb.stmts[3]) {
+        Some(syn::Expr::ForLoop(f)) => f,
+        _ => return Err("closure loop: expected the loop over next".into()),
+    };
+    if tok(&*f2.expr) != "next" || tok(&*f2.pat) != "value" || f2.body.stmts.len() != 1 {
+        return Err("closure loop: second loop shape".into());
+    }
+    let i = as_if(&f2.body.stmts[0]).ok_or("closure loop: expected `if seen.insert(value)`")?;
+    if tok(&*i.cond) != "seen.insert(value)" || i.else_branch.is_some() {
+        return Err("closure loop: fresh test is not seen.insert(value)".into());
+    }
+    let mut acts = vec![];
+    for s in &i.then_branch.stmts {
+        match tok(s).as_str() {
+            "summary.note_dirty_id(value);" => acts.push("ActNoteDirty".to_string()),
+            "frontier.insert(value);" => acts.push("ActFrontier".to_string()),
+            t => return Err(format!("closure loop: unexpected action `{t}`")),
+        }
+    }
+    // extend_containers_containing: parents come from val_index
+    let ecc = find_fn(file, "extend_containers_containing")?;
+    let want = "{forvalueinvalues{ifletSome(containers)=self.val_index.get(value){out.extend(containers.iter().copied());}}}";
+    if tok(&ecc) != want {
+        return Err("extend_containers_containing: body changed".into());
+    }
+    Ok(format!(
+        "(* containers/mod.rs ContainerValues::rebuild_all / expand_dirty_id_closure / extend_containers_containing *)\n\
+         Inductive loop_kind := LoopWhile | LoopOnce.\n\
+         Inductive closure_src := ParentsOfFrontier | ParentsOfSeen.\n\
+         Inductive closure_act := ActNoteDirty | ActFrontier.\n\
+         Definition rebuild_all_closes_dirty : bool := {applied}.\n\
+         Definition closure_loop : loop_kind := {kind}.          (* `while !frontier.is_empty()` *)\n\
+         Definition closure_next_from : closure_src := {src}.    (* val_index parents of .. *)\n\
+         Definition closure_fresh_actions : list closure_act := {}. (* per value of next not yet seen *)\n",
+        coq_list(&acts)
+    ))
+}
+
+/// egglog-bridge rebuild(): the native-rebuild loop
+fn item_bridge_loop(repo: &Path) -> R<String> {
+    let file = parse(repo, "egglog-bridge/src/lib.rs")?;
+    let body = find_fn(&file, "rebuild")?;
+    struct L {
+        found: Vec<syn::ExprLoop>,
+    }
+    impl<'ast> Visit<'ast> for L {
+        fn visit_expr_loop(&mut self, l: &'ast syn::ExprLoop) {
+            self.found.push(l.clone());
+        }
+    }
+    let mut l = L { found: vec![] };
+    l.visit_block(&body);
+    if l.found.len() != 1 {
+        return Err("rebuild: expected exactly one `loop`".into());
+    }
+    let st: Vec<String> = l.found[0].body.stmts.iter().map(tok).collect();
+    let mut steps = vec![];
+    let mut brk = None;
+    for (k, t) in st.iter().enumerate() {
+        let s = match t.as_str() {
+            "letcontainer_rebuild=self.db.rebuild_containers(self.uf_table);" => "BContainers",
+            "letnext_ts=self.next_ts().to_value();" => "BNextTs",
+            "lettable_rebuild=self.db.apply_rebuild(self.uf_table,&tables,next_ts);" => "BTables",
+            "letdirty_ids:Vec<Value>=container_rebuild.dirty_ids().iter().copied().collect();" => "BDirtyOfContainers",
+            "letrefreshed_rows=self.db.refresh_rows_for_values(&tables,&dirty_ids,next_ts);" => "BRefresh",
+            "self.inc_ts();" => "BIncTs",
+            _ => {
+                if k + 1 == st.len() {
+                    let i = as_if(&l.found[0].body.stmts[k]).ok_or("rebuild loop: last statement is not the break test")?;
+                    if tok(&i.then_branch) != "{break;}" || i.else_branch.is_some() {
+                        return Err("rebuild loop: break test shape".into());
+                    }
+                    let b: &[(&str, &str)] = &[("table_rebuild", "table_rebuild"), ("refreshed_rows", "refreshed_rows"), ("container_rebuild.changed()", "container_changed")];
+                    brk = Some(bool_expr_calls(&i.cond, b)?);
+                    continue;
+                }
+                return Err(format!("rebuild loop: unexpected statement `{t}`"));
+            }
+        };
+        steps.push(s.to_string());
+    }
+    let brk = brk.ok_or("rebuild loop: break test not found")?;
+    Ok(format!(
+        "(* egglog-bridge/src/lib.rs EGraph::rebuild: one pass of the native rebuild loop *)\n\
+         Inductive bstep := BContainers | BNextTs | BTables | BDirtyOfContainers | BRefresh | BIncTs.\n\
+         Definition bridge_pass : list bstep := {}.\n\
+         Definition bridge_break (table_rebuild refreshed_rows container_changed : bool) : bool := {brk}.\n",
+        coq_list(&steps)
+    ))
+}
+
+/// like bool_expr but atoms may be arbitrary token strings (method calls) listed in `b`
+fn bool_expr_calls(e: &syn::Expr, b: &[(&str, &str)]) -> R<String> {
+    let e = strip_parens(e);
+    let t = tok(e);
+    for (rust, coq) in b {
+        if t == *rust {
+            return Ok(coq.to_string());
+        }
+    }
+    match e {
+        syn::Expr::Unary(u) if matches!(u.op, syn::UnOp::Not(_)) => Ok(format!("negb {}", paren(bool_expr_calls(&u.expr, b)?))),
+        syn::Expr::Binary(x) if matches!(x.op, syn::BinOp::And(_)) => Ok(format!("{} && {}", paren(bool_expr_calls(&x.left, b)?), paren(bool_expr_calls(&x.right, b)?))),
+        syn::Expr::Binary(x) if matches!(x.op, syn::BinOp::Or(_)) => Ok(format!("{} || {}", paren(bool_expr_calls(&x.left, b)?), paren(bool_expr_calls(&x.right, b)?))),
+        _ => Err(format!("unsupported boolean expression `{t}`")),
+    }
+}
+fn paren(s: String) -> String {
+    if s.contains(' ') {
+        format!("({s})")
+    } else {
+        s
+    }
+}
+
+/// SortedWritesTable::refresh_rows_for_values: a refreshed row keeps all columns except the
+/// timestamp column, which becomes next_ts; candidates = rows the rebuild index lists for a dirty id
+fn item_refresh(repo: &Path) -> R<String> {
+    let file = parse(repo, "core-relations/src/table/rebuild.rs")?;
+    let body = find_fn(&file, "refresh_rows_for_values")?;
+    let loops = find_for_loops(&body);
+    if loops.len() != 2 {
+        return Err(format!("refresh_rows_for_values: expected 2 for-loops, found {}", loops.len()));
+    }
+    let l1: Vec<String> = loops[0].body.stmts.iter().map(tok).collect();
+    if tok(&*loops[0].expr) != "dirty_ids"
+        || l1.len() != 2
+        || !l1[0].starts_with("letSome(subset)=self.rebuild_index.get_subset(value)else{continue")
+        || l1[1] != "subset.offsets(|row_id|{candidate_rows.insert(row_id);});"
+    {
+        return Err("refresh_rows_for_values: candidate collection changed".into());
+    }
+    let all: Vec<String> = body.stmts.iter().map(tok).collect();
+    let sorted = all.iter().any(|t| t == "candidate_rows.sort_unstable();");
+    let index_fresh = all.iter().any(|t| t == "self.refresh_rebuild_index();");
+    if !index_fresh {
+        return Err("refresh_rows_for_values: rebuild index is not refreshed first".into());
+    }
+    let l2: Vec<String> = loops[1].body.stmts.iter().map(tok).collect();
+    if tok(&*loops[1].expr) != "candidate_rows" {
+        return Err("refresh_rows_for_values: second loop is not over the candidates".into());
+    }
+    let want = [
+        "letSome(current_row)=self.data.get_row(row_id)else{continue;};",
+        "mutation_buf.stage_remove(&current_row[0..self.n_keys]);",
+        "refreshed_row.clear();",
+        "refreshed_row.extend_from_slice(current_row);",
+        "ifletSome(sort_by)=self.sort_by{refreshed_row[sort_by.index()]=next_ts;}",
+        "mutation_buf.stage_insert(&refreshed_row);",
+        "changed=true;",
+    ];
+    if l2 != want {
+        return Err(format!("refresh_rows_for_values: per-row statements changed: {l2:?}"));
+    }
+    Ok(format!(
+        "(* core-relations/src/table/rebuild.rs SortedWritesTable::refresh_rows_for_values *)\n\
+         Inductive refresh_col := KeepCol | SetNextTs.\n\
+         Definition refresh_candidates_from_dirty_index : bool := true. (* rows the rebuild index lists under a dirty id *)\n\
+         Definition refresh_in_row_order : bool := {sorted}.\n\
+         Definition refresh_row_removed_then_inserted : bool := true.\n\
+         Definition refresh_ts_col : refresh_col := SetNextTs.\n\
+         Definition refresh_other_cols : refresh_col := KeepCol.\n"
+    ))
+}
+
+pub fn generate(repo: &Path) -> (String, Vec<String>) {
+    let mut text = String::from(
+        "(* GENERATED by /verif/translator (x_cont.rs) from core-relations/src/containers/mod.rs, egglog-bridge/src/lib.rs, core-relations/src/table/rebuild.rs -- do not edit *)\n\
+         From Coq Require Import List Arith PeanoNat Bool.\nImport ListNotations.\nRequire Import Verif.gen.BridgeFns.\nOpen Scope bool_scope.\n\n",
+    );
+    text += COP_DECL;
+    text.push('\n');
+    let mut rep = vec![];
+    const CM: &str = "core-relations/src/containers/mod.rs";
+    let cm = parse(repo, CM);
+    let mut run = |name: &str, file: &str, r: R<String>| match r {
+        Ok(t) => {
+            text += &t;
+            text.push('\n');
+            rep.push(format!("{{\"item\":\"ContFacts.{name}\",\"file\":\"{file}\",\"ok\":true}}"));
+        }
+        Err(e) => {
+            text += &format!("(* ContFacts.{name}: FAILED: {} *)\n\n", e.replace("*)", "* )").replace("(*", "( *"));
+            rep.push(format!("{{\"item\":\"ContFacts.{name}\",\"file\":\"{file}\",\"ok\":false,\"error\":{:?}}}", e));
+        }
+    };
+    run("merge", "egglog-bridge/src/lib.rs", item_merge(repo));
+    let with = |f: fn(&syn::File) -> R<String>| -> R<String> {
+        match &cm {
+            Ok(file) => f(file),
+            Err(e) => Err(e.clone()),
+        }
+    };
+    run("strategy", CM, with(item_strategy));
+    run("insert_owned", CM, with(item_insert_owned));
+    run("reinsert_inc", CM, with(item_reinsert_inc));
+    run("inc_scan", CM, with(item_inc_scan));
+    run("nonincr", CM, with(item_nonincr));
+    run("nonincr_par", CM, with(item_nonincr_par));
+    run("closure", CM, with(item_closure));
+    run("bridge_loop", "egglog-bridge/src/lib.rs", item_bridge_loop(repo));
+    run("refresh", "core-relations/src/table/rebuild.rs", item_refresh(repo));
+    (text, rep)
 }
